@@ -1007,7 +1007,7 @@ Lemma PF_set_payment : forall s x p, PF s x -> PF s (set_payment_in_store x p).
 Proof.
   intros s x p H. unfold set_payment_in_store.
   destruct (get_payment x (p_source p) (p_ext p)) as [ex|];
-    [destruct (p_target ex) as [|t0 t]; [|destruct (bytes_eqb (t0 :: t) (p_target p))]|];
+    [destruct (p_target ex) as [|t0 t]; [|destruct (tgt_str_eqb (t0 :: t) (p_tgt_up ex) (p_target p) (p_tgt_up p))]|];
     destruct (p_target p) as [|u0 u];
     repeat first [apply PF_set | apply PF_del | apply pay_k_pay | apply pay_k_tgt | exact H].
 Qed.
@@ -1037,6 +1037,14 @@ Qed.
 Lemma PF_take_payment : forall s t src e s', take_payment s t src e = Some s' -> PF s s'.
 Proof.
   intros s t src e s' H. unfold take_payment in H. grd H.
+  destruct (get_payment s src e) as [p|]; [|discriminate]. grd H. grd H.
+  inversion H. apply PF_delete_payment, PF_refl.
+Qed.
+
+Lemma PF_accept_payment : forall s t tup src sup e s',
+  accept_payment s t tup src sup e = Some s' -> PF s s'.
+Proof.
+  intros s t tup src sup e s' H. unfold accept_payment in H. grd H.
   destruct (get_payment s src e) as [p|]; [|discriminate]. grd H. grd H.
   inversion H. apply PF_delete_payment, PF_refl.
 Qed.
@@ -1095,6 +1103,7 @@ Proof.
   - apply Hlift. intros s' E. eapply fill_inv; eassumption.
   - cbn [fst]. apply close_inv. exact HI.
   - apply Hlift. intros s' E. apply PF_inv; [exact HI|]. eapply PF_create_payment; eassumption.
+  - apply Hlift. intros s' E. apply PF_inv; [exact HI|]. eapply PF_accept_payment; eassumption.
   - apply Hlift. intros s' E. apply PF_inv; [exact HI|]. eapply PF_take_payment; eassumption.
   - apply Hlift. intros s' E. apply PF_inv; [exact HI|]. eapply PF_cancel_payments; eassumption.
   - apply Hlift. intros s' E. apply PF_inv; [exact HI|]. eapply PF_reject_payments; eassumption.
@@ -1148,6 +1157,7 @@ Proof.
     cbn [fold_left]. apply IH. destruct (cancel_order s (fst idt)) eqn:E; [|exact Hs].
     eapply sorted_cancel; eassumption.
   - apply Hlift. intros s' E. apply PF_create_payment in E. apply (proj1 E). exact Hs.
+  - apply Hlift. intros s' E. apply PF_accept_payment in E. apply (proj1 E). exact Hs.
   - apply Hlift. intros s' E. apply PF_take_payment in E. apply (proj1 E). exact Hs.
   - apply Hlift. intros s' E. apply PF_cancel_payments in E. apply (proj1 E). exact Hs.
   - apply Hlift. intros s' E. apply PF_reject_payments in E. apply (proj1 E). exact Hs.
